@@ -99,6 +99,7 @@ Definition seru (p : point) : bytes := 4%Z :: be32 (fst p) ++ be32 (snd p).
 
 Definition on_curve (x y : Z) : bool :=
   let bx := BigZ.of_Z x in let by_ := BigZ.of_Z y in
+  (x <? Pz)%Z && (y <? Pz)%Z &&
   BigZ.eqb (fmul by_ by_) (fadd (fmul bx (fmul bx bx)) 7).
 
 (* python-ecdsa VerifyingKey.from_string, default encodings: raw (64), uncompressed (65, 04),
@@ -113,7 +114,7 @@ Definition parse (b : bytes) : option point :=
           let bx := BigZ.of_Z x in
           let alpha := fadd (fmul bx (fmul bx bx)) 7 in
           let beta := fsqrt alpha in
-          if BigZ.eqb (fmul beta beta) alpha then
+          if (x <? Pz)%Z && BigZ.eqb (fmul beta beta) alpha then
             let y := BigZ.to_Z beta in
             let y := if (y mod 2 =? t - 2)%Z then y else (Pz - y)%Z in
             Some (x, y)
